@@ -17,10 +17,10 @@ import (
 // ---------- streams ----------
 
 type sop struct {
-	name   string
-	arity  int // 0: receiver only, 1: receiver + another live stream
-	apply  func(r, a coll.Stream) coll.Stream
-	model  func(r, a []int) []int
+	name         string
+	arity        int // 0: receiver only, 1: receiver + another live stream
+	apply        func(r, a coll.Stream) coll.Stream
+	model        func(r, a []int) []int
 	inPlaceIface bool // interface{} Remove: documented in-place mutator (receiver becomes the result)
 }
 
